@@ -115,7 +115,19 @@ fn one_voice(ctx: &mut Ctx, env: &Env, rng: &mut Rng, base: &Engine, rv: &RefVoi
         prev = Some((th, voiced, run));
     }
     // isolation the other way round: thresholds / GV weights of the other streams leave stream 1 alone
-    if let Some((th, _, base_run)) = prev {
+    // (at a threshold where frames are voiced: the median state weight)
+    let mid = {
+        let mut w = weights.clone();
+        w.sort_by(|a, b| a.total_cmp(b));
+        let m = w[w.len() / 2];
+        if m > 0.0 { f64::from_bits(m.to_bits() - 1) } else { 0.0 }
+    };
+    let mid_run = {
+        let mut e = base.clone();
+        e.condition.set_msd_threshold(1, mid);
+        trajectories(&e, labels.clone()).ok()
+    };
+    if let Some((th, base_run)) = mid_run.map(|r| (mid, r)) {
         for k in 0..nstreams {
             if k == 1 {
                 continue;
